@@ -199,8 +199,46 @@ func secReqs(shape string) []any {
 		return []any{map[string]any{"a": []any{}}, map[string]any{}}
 	case "empty_list":
 		return []any{}
+	case "undecl_or": // an alternative naming a scheme the document does not declare, then a declared one
+		return []any{map[string]any{"zz": []any{}}, map[string]any{"a": []any{}}}
+	case "undecl_and":
+		return []any{map[string]any{"a": []any{}, "zz": []any{}}, map[string]any{"c": []any{}}}
+	case "undecl_only":
+		return []any{map[string]any{"zz": []any{}}}
 	}
 	return nil
+}
+
+// SecurityModel is the reference model of C07's security clause: validation
+// of the security part succeeds exactly when the effective requirement list
+// (the operation's, or the document's when the operation declares none) is
+// empty or has a requirement all of whose schemes are declared and accepted by
+// the callback; an empty requirement needs no authentication.
+func SecurityModel(d SDoc, accepted func(scheme string) bool) bool {
+	shape := d.SecOp
+	if shape == "" {
+		shape = d.SecDoc
+	}
+	if shape == "" {
+		return true
+	}
+	reqs := secReqs(shape)
+	if len(reqs) == 0 {
+		return true
+	}
+	declared := map[string]bool{"a": true, "b": true, "c": true}
+	for _, r := range reqs {
+		ok := true
+		for name := range r.(map[string]any) {
+			if !declared[name] || !accepted(name) {
+				ok = false
+			}
+		}
+		if ok {
+			return true
+		}
+	}
+	return false
 }
 
 var respSchema = map[string]any{
